@@ -12,14 +12,15 @@ LEVEL = "exploration"
 RULE = ("Case = nc 1..400 x ns 1..400 x dtype f4/f8 x full-scale range (scalar python/NumPy or per-channel array; 'exact' "
         "ranges 50*j*2^e whose 98 % is a representable number, or 'real' probe-like values) x proportion built from an "
         "integer k0 ('at' = fl(k0/nc), 'between' = (k0+0.5)/nc, or a decimal such as the default 0.2) x taper width "
-        "1..31 x a time plan of voltage runs and slew runs (k0-1/k0/k0+1/k0+2/all channels over, values 1 ulp (exact) or "
-        "64 eps (real) below/at/above 0.98*range, steps 64 eps below/above the slew limit, permanently 'hot' channels "
-        "sitting at/below the threshold, gaps 0/1/half-width/width/random, runs touching both ends) in four regimes "
-        "(slew off, voltage off, mixed with default-like range/limit ratio, Gaussian noise with counts fluctuating "
-        "around k0), C-ordered or as the transpose of an (ns, nc) chunk. Bulk data from a seed. Oracle: per-sample integer channel counts over 0.98*range and over the "
-        "step limit v_per_sec*fs, flagged iff a count >= k0+1 (three-valued: a count that depends on a value within "
-        "8 eps of a threshold is not asserted); mute in [0,1], <=1e-9 on flags, >=1-1e-9 farther than the half width, "
-        "== clip(1 - sum flags*sin window) by a direct loop (1e-9), and equal (1e-12) to the mute of a 3-channel "
+        "1..31 (odd; even 2..30 as a separate class) x a time plan of voltage runs and slew runs (k0-1/k0/k0+1/k0+2/all "
+        "channels over, values 1 ulp (exact) or 64 eps (real) below/at/above 0.98*range, steps 64 eps below/above the "
+        "slew limit, permanently 'hot' channels sitting at/below the threshold, gaps 0/1/half-width/width/random, runs "
+        "touching both ends) in four regimes (slew off, voltage off, mixed with default-like range/limit ratio, "
+        "Gaussian noise with counts fluctuating around k0), C-ordered or as the transpose of an (ns, nc) chunk. Bulk "
+        "data from a seed. Oracle: per-sample integer channel counts over 0.98*range and over the step limit "
+        "v_per_sec*fs, flagged iff a count >= k0+1 (three-valued: a count that depends on a value within 8 eps of an "
+        "inexact threshold is not asserted); mute in [0,1], <=1e-9 on flags, >=1-1e-9 farther than the half width, "
+        "== clip(1 - sum flags*sine window) by a direct loop (1e-9), and equal (1e-12) to the mute of a 3-channel "
         "synthetic recording with the same flags. All flag patterns of length <= 10 (quick) / 13 (thorough) are "
         "enumerated through one-channel recordings (voltage- and slew-driven). Non-trivial = some sample whose larger "
         "count equals k0+1, or k0 >= 1 and equals k0, or a flagged run touching an end. Distinct = distinct case hash.")
